@@ -182,6 +182,8 @@ PROBES = [
     ('scan-glue', doc(r'\parskip=\baselineskip \newskip\mysk \mysk=2pt plus 1pt minus 1pt \hskip\mysk y')),
     ('scan-dimen', doc(r'\newdimen\myd \myd=2\parindent \parindent=\myd \newcount\myc \myc=\tolerance z')),
     ('scan-mudimen', doc(r'\mkern 3mu \thinmuskip=2mu w')),
+    # token-typed arguments (Tok / XTok): operands that expand to several tokens, to one, to nothing
+    ('scan-xtok', doc(r'\def\first{xy}\def\second{xy}\def\none{}\def\one{z}\ifx\first\second A\else B\fi \ifx\none\first C\else D\fi \ifx\one z E\fi \if ab F\fi \ifcat a1 G\fi')),
     # environments whose classes derive from one another (class-level caches must not be inherited)
     ('tabular', doc(r'\begin{tabular}{ll}a&b\\c&d\end{tabular}')),
     ('eqnarray-star', doc(r'\begin{eqnarray*}a&=&b\\c&=&d\end{eqnarray*}')),
